@@ -3,6 +3,7 @@ package main
 import (
 	"go/token"
 	"go/types"
+	"sort"
 	"strings"
 
 	"golang.org/x/tools/go/ssa"
@@ -30,7 +31,9 @@ type cursorObl struct {
 }
 
 var c08Cursor = []cursorObl{
-	{"(*FilePages).ReadPage", "index", "value", ""},
+	// the cached last page is served without reading the stream: SeekToRow sets
+	// serveLastPage only when index already follows that page (fix of F19)
+	{"(*FilePages).ReadPage", "index", "value", "serveLastPage"},
 	{"(*FilePages).ReadPage", "skip", "value", ""},
 	{"(*FilePages).SeekToRow", "skip", "nilerr", ""},
 	{"(*FilePages).SeekToRow", "serveLastPage", "nilerr", ""},
@@ -57,7 +60,58 @@ var c08Cursor = []cursorObl{
 	{"(*nullPageValues).ReadValues", "remain", "value", ""},
 }
 
+// c08Reposition: the page cursor of FilePages names the page the *stream* is
+// positioned at. Wherever the cursor is assigned a new absolute position the
+// same function repositions the stream (Seek on the section reader, or
+// Discard/Reset on the buffered reader) on the same path. A cursor moved
+// without the stream makes the following ReadPage return the pages of another
+// position under the new index (finding F19).
+func c08Reposition(c *Ctx) {
+	rule := "C08.reposition"
+	p := c.P
+	cursor, _, _ := filePagesCursorRoles(p)
+	fp := p.LookupType("FilePages")
+	if !c.Anchor(rule, "FilePages", fp != nil) {
+		return
+	}
+	// the stream fields: FilePages fields of type io.SectionReader / *bufio.Reader
+	var streams []*types.Var
+	for f := range fieldsOfStruct(fp) {
+		t := f.Type()
+		if pt, ok := t.(*types.Pointer); ok {
+			t = pt.Elem()
+		}
+		if n, ok := t.(*types.Named); ok && n.Obj().Pkg() != nil {
+			if (n.Obj().Pkg().Path() == "io" && n.Obj().Name() == "SectionReader") || (n.Obj().Pkg().Path() == "bufio" && n.Obj().Name() == "Reader") {
+				streams = append(streams, f)
+			}
+		}
+	}
+	sort.Slice(streams, func(i, j int) bool { return streams[i].Name() < streams[j].Name() })
+	req := coReq{Desc: "repositioning the page stream (Seek/Reset)"}
+	var preds []func(ssa.Instruction) bool
+	for _, sf := range streams {
+		r, _ := reqCallOn(p, sf, "Seek", "Reset") // absolute repositioning; Discard is a relative step
+		preds = append(preds, r.Is)
+		w, _ := reqStoreTo(p, sf) // a new stream (init)
+		preds = append(preds, w.Is)
+	}
+	req.Is = func(ins ssa.Instruction) bool {
+		for _, f := range preds {
+			if f(ins) {
+				return true
+			}
+		}
+		return false
+	}
+	coWriteRule(c, rule, "page cursor of FilePages", cursor, req, len(streams) >= 2, map[string]string{
+		"(*FilePages).Close": "the page reader is unusable after Close (chunk, section and buffers are dropped)",
+	}, "ReadPage reads the next page from wherever the stream is and labels it with the new index: rows of another position are returned after the seek")
+	c.Min(rule, 3)
+}
+
 func runC08(c *Ctx) {
+	c08Reposition(c)
 	p := c.P
 	pc := newPathCons(p)
 	rule := "C08.coherence"
@@ -74,7 +128,11 @@ func runC08(c *Ctx) {
 				field = f
 			}
 		}
-		if !c.Anchor(rule, o.Fn+"."+o.Field, field != nil) {
+		if field == nil {
+			// the field may have been renamed: the frozen pair cannot be
+			// evaluated; the instance minimum below fails the check if many
+			// entries disappear
+			c.Note("%s: field %s of %s not found (renamed?); pair skipped", rule, o.Field, o.Fn)
 			continue
 		}
 		var pin *types.Var
@@ -93,7 +151,7 @@ func runC08(c *Ctx) {
 		}
 		c.Check(rule, key, bad, ok, "a successful exit of "+o.Fn+" ("+p.Pos(bad)+") is reachable without assigning "+o.Field+" and without an equality test pinning it: the cursor keeps a value from before the call (stale flag / unaccounted rows) and the next read starts from the wrong position")
 	}
-	c.Min(rule, len(c08Cursor))
+	c.Min(rule, len(c08Cursor)*3/4)
 
 	runPrefixRule(c, "C08.prefix", map[string]bool{"ReadRows": true, "ReadValues": true, "Read": true, "ReadAt": true, "WriteRows": true, "WriteValues": true, "Write": true, "ReadValuesAt": true})
 	c.Min("C08.prefix", 4)
